@@ -91,9 +91,9 @@ func (c *c13Check) Level() string   { return "fault_enumeration" }
 func (c *c13Check) Flavour() string { return "plain" }
 func (c *c13Check) Runs(tier string) int {
 	if tier == "thorough" {
-		return 400000
+		return 4000000
 	}
-	return 4000
+	return 40000
 }
 func (c *c13Check) BudgetS(tier string) int {
 	if tier == "thorough" {
